@@ -316,7 +316,11 @@ def parse_assumptions(out):
             if line.strip() == '' or re.match(r'^(File|Warning|\S+ is |Fetching)', line):
                 cur = None
             else:
-                cur.append(line.rstrip())
+                # an axiom entry starts in column 0 with its name; its type continues on indented lines
+                if line[:1] not in (' ', '\t'):
+                    cur.append('@@' + line.rstrip())
+                else:
+                    cur.append(line.rstrip())
     flat = []
     for r in res:
         if isinstance(r, list):
@@ -327,11 +331,11 @@ def parse_assumptions(out):
 
 
 def axiom_names(assumption_texts):
+    """Axiom names of flattened Print Assumptions texts (see parse_assumptions: names are marked with '@@')."""
     names = set()
     for t in assumption_texts:
         if t.startswith('Axioms:'):
-            # names are tokens followed by ' :' at the start of an entry
-            for mo in re.finditer(r'(?:^|\s)([A-Za-z_][\w.\']*)\s+:', t[7:]):
+            for mo in re.finditer(r'@@([A-Za-z_][\w.\']*)', t):
                 names.add(mo.group(1))
     return names
 
